@@ -94,7 +94,11 @@ def synthetic_items(tier):
     out = []
     cells = [(t, ts) for t in SYN_TASKS for ts in SYN_TS]
     for mask in range(1, 1 << len(cells)):
-        out.append({"synthetic": [list(cells[i]) for i in range(len(cells)) if mask >> i & 1]})
+        sel = [list(cells[i]) for i in range(len(cells)) if mask >> i & 1]
+        out.append({"synthetic": sel})
+        if any(a[0] == b[0] and a[1] != b[1] for a in sel for b in sel):
+            # the same rows inserted newest first: the order in which a restore of OLDER versions into a project leaves the index
+            out.append({"synthetic": sel, "reversed": True})
     return out
 
 
@@ -184,12 +188,14 @@ def run_item(item, tier):
         return res
     if "synthetic" in item:
         rows = [(tid, ts, ("a" * 40 if ts == 100 else None), 1 if ts == 100 else 0) for tid, ts in item["synthetic"]]
+        if item.get("reversed"):
+            rows = rows[::-1]
         pre = {}
         for tid, ts in item["synthetic"]:
             pre[os.path.join("cond-out", vdir((tid, ts)), "data")] = "%s@%d" % (tid, ts)
         root = driver.fresh_project(FILES, name="c11", index_rows=rows, pre_tree=pre)
         t, n = 1_700_000_000, 0
-        item = dict(item, history=["synthetic"] + item["synthetic"])
+        item = dict(item, history=["synthetic-reversed" if item.get("reversed") else "synthetic"] + item["synthetic"])
     else:
         root = driver.fresh_project(FILES, name="c11")
         t, n = apply_runs(root, item["history"])
@@ -208,11 +214,13 @@ def run_item(item, tier):
             # archive index (here: holding every row of the project) in cond-out
             driver.make_index(os.path.join(root, "cond-out", "version_index_archive.sqlite"), [tuple(r) for r in rows0])
         arch = os.path.join(root, ["A.tar.gz", "results-2024.tar", "snapshot", "b.tgz"][(len(str(task)) + int(latest) + int(stale)) % 4])
-        argv = ["archive"] + ([task] if task else []) + (["--latest"] if latest else []) + ["-o", arch]
+        # every third variant names the archive relative to the working directory (as the documentation does), from a package directory
+        rel_cwd = "pkg/sub" if (len(str(task)) + int(latest)) % 3 == 0 and not stale else None   # (a depth other than that of cond-out)
+        argv = ["archive"] + ([task] if task else []) + (["--latest"] if latest else []) + ["-o", os.path.relpath(arch, os.path.join(root, rel_cwd)) if rel_cwd else arch]
         res["evals"] += 1
         res["transitions"] += 1
         want = ref_selection(rows0, task, latest)
-        r = hist.run(root, argv, clock=driver.Clock(t + 1))
+        r = hist.run(root, argv, cwd=rel_cwd or ".", clock=driver.Clock(t + 1))
         res["sigs"].add(explore.sig([item["history"], task, latest, stale]))
         if os.path.exists(os.path.join(root, "cond-out", "version_index_archive.sqlite")):
             if not (stale and not want):
@@ -233,6 +241,9 @@ def run_item(item, tier):
             continue
         if r.exit != 0:
             viol("archive:failed", "cond %s exits %r: %s" % (" ".join(argv[:-1]), r.exit, r.err_text[:300]), art)
+            continue
+        if not os.path.isfile(arch):
+            viol("archive:not-where-asked", "cond %s (from %s/) reports success but there is no archive at %s" % (" ".join(argv), rel_cwd or ".", os.path.relpath(arch, root)), art)
             continue
         members = subprocess.run(["tar", "tf", arch], capture_output=True, text=True).stdout.split()
         tops = sorted({m.rstrip("/") for m in members if m.rstrip("/") in [vdir(w) for w in want] or m.rstrip("/").endswith(".sqlite")})
@@ -285,7 +296,7 @@ def run_item(item, tier):
             if changed:
                 viol("restore:modified-existing", "restore modified existing entries %s" % changed[:4], a2)
             res["states"].add(explore.sig([sorted(rows1), hist.digest(tree1)]))
-    res["sample"] = {"history": ([run_steps()[h] for h in item["history"]] if item["history"][:1] != ["synthetic"] else item["history"]),
+    res["sample"] = {"history": ([run_steps()[h] for h in item["history"]] if not str(item["history"][0]).startswith("synthetic") else item["history"]),
                      "rows": rows0[:4], "archive_variants": len(variants)}
     for key, (what, art) in found.items():
         res["violations"].append({"key": key, "what": what, "artefact": art})
@@ -296,8 +307,8 @@ def replay(artefact):
     if "names" in artefact:
         r = run_item({"names": artefact["names"]}, "quick")
         return [(v["key"], v["what"]) for v in r["violations"]]
-    if artefact["history"][:1] == ["synthetic"]:
-        r = run_item({"synthetic": artefact["history"][1:]}, "quick")
+    if artefact["history"][:1] in (["synthetic"], ["synthetic-reversed"]):
+        r = run_item({"synthetic": artefact["history"][1:], "reversed": artefact["history"][0] == "synthetic-reversed"}, "quick")
         return [(v["key"], v["what"]) for v in r["violations"]]
     r = run_item({"history": artefact["history"]}, "quick")
     return [(v["key"], v["what"]) for v in r["violations"]]
